@@ -1,11 +1,88 @@
 package zzverif
 
-var events = map[string]func(){}
+import (
+	"strings"
+
+	rlog "github.com/zishang520/engine.io/v2/log"
+)
+
+// Native side of atomic event injection.  The symbolic executor may run one pending
+// event inline at any yield point (a debug log call of the code under test, or an
+// explicit verif.Yield); it records "inject:<event>@..." with the ordinal of the yield
+// point.  Natively the same ordinal is reached through the verif-tagged hook
+// log.VerifYield, and the event is run inline there.
+
+type eventRec struct {
+	name  string
+	fn    func()
+	fired bool
+}
+
+var (
+	events      []*eventRec
+	injBudget   int
+	inInjection bool
+	yieldCount  int
+)
+
+func init() {
+	rlog.VerifYield = func(prefix, message string) { yieldPoint("log") }
+}
+
+func resetInjection() {
+	events, injBudget, inInjection, yieldCount = nil, 0, false, 0
+}
 
 func registerEvent(name string, fn func()) {
 	mu.Lock()
-	events[name] = fn
+	events = append(events, &eventRec{name: name, fn: fn})
 	mu.Unlock()
 }
 
-func yieldPoint(kind string) {}
+func yieldPoint(kind string) {
+	mu.Lock()
+	if injBudget <= 0 || inInjection || !loaded {
+		mu.Unlock()
+		return
+	}
+	pending := false
+	for _, e := range events {
+		if !e.fired {
+			pending = true
+		}
+	}
+	if !pending {
+		mu.Unlock()
+		return
+	}
+	yieldCount++
+	var ev *eventRec
+	if pos < len(rf.Inputs) {
+		v := rf.Inputs[pos]
+		if v.Kind == "choose" && strings.HasPrefix(v.Label, "inject:") && int(v.Int) == yieldCount {
+			name := strings.TrimPrefix(v.Label, "inject:")
+			if i := strings.Index(name, "@"); i >= 0 {
+				name = name[:i]
+			}
+			for _, e := range events {
+				if e.name == name && !e.fired {
+					ev = e
+					break
+				}
+			}
+			if ev != nil {
+				pos++
+				ev.fired = true
+				injBudget--
+				inInjection = true
+			}
+		}
+	}
+	mu.Unlock()
+	if ev != nil {
+		ev.fn()
+		mu.Lock()
+		inInjection = false
+		mu.Unlock()
+	}
+}
